@@ -6,6 +6,7 @@ import (
 	"go/constant"
 	"go/token"
 	"go/types"
+	"math/big"
 	"os"
 	"sort"
 	"strings"
@@ -385,6 +386,7 @@ func ruleFmtF(c *Ctx) {
 					for _, neg := range []bool{false, true} {
 						in := newInterp(p)
 						in.exact = true
+						in.inlineAll = true
 						in.intrinsics["builtin.append"] = func(in *interp, st *state, call *ast.CallExpr, recv AV, args []AV) ([]AV, bool) {
 							s, ok := args[0].(avStr)
 							if !ok {
@@ -498,4 +500,185 @@ func ruleFmtF(c *Ctx) {
 		}
 	}
 	c.check(bad == "", "fmtf.text", fd, fmt.Sprintf("fmtF writes the positional numeral for every digit string, exponent and precision tried (%d evaluations against a reference)", n), "digits.fmtF: "+bad, props...)
+}
+
+// digits.round by interpretation on concrete digit strings: rounding "d1..dn"·10^e to prec digits must give
+// the half-even rounding of that number, with trailing zeros stripped and the exponent adjusted, including
+// the carry out of an all-nines prefix.
+func ruleRoundText(c *Ctx) {
+	p := c.P
+	props := []string{"C07", "C06"}
+	fd := c.fn("digits.round")
+	if fd == nil {
+		return
+	}
+	ps := paramObjs(p, fd)
+	recv := recvObj(p, fd)
+	if len(ps) != 1 || recv == nil {
+		c.undecided("roundtext.shape", fd, "round(prec) expected", props...)
+		return
+	}
+	bad := ""
+	n := 0
+	for _, digs := range []string{"5", "15", "25", "35", "949", "950", "951", "995", "999", "9995", "9985", "12345", "1005", "4999", "5001", "85", "65", "999999", "100001"} {
+		// (digit strings produced by Decimal.digits never end in 0: E10.digitpairs)
+		if strings.HasSuffix(digs, "0") {
+			continue
+		}
+		for prec := -1; prec <= len(digs)+1 && bad == ""; prec++ {
+			for _, e0 := range []int64{0, -3, 7} {
+				in := newInterp(p)
+				in.exact = true
+				in.inlineAll = true
+				st := newState()
+				st.vars[recv] = avRef{"d"}
+				padded := digs + strings.Repeat("\x00", 39-len(digs))
+				st.flds["ref:d.dig"] = avStr{padded}
+				st.flds["ref:d.exp"] = avInt{e0}
+				st.flds["ref:d.ndig"] = avInt{int64(len(digs))}
+				st.flds["ref:d.neg"] = avBool{false}
+				st.vars[ps[0]] = avInt{int64(prec)}
+				in.curFn = append(in.curFn, fd)
+				flows := in.execBlock(fd.Body.List, st)
+				n++
+				// reference: round the integer `digs` to prec leading digits, half-even
+				wantDigs, wantExp := digs, e0
+				switch {
+				case len(digs) <= prec:
+				case prec < 0:
+					wantDigs, wantExp = "", e0+int64(len(digs))
+				default:
+					v, _ := new(big.Int).SetString(digs, 10)
+					drop := len(digs) - prec
+					unit := pow10(drop)
+					q, r := new(big.Int).QuoRem(v, unit, new(big.Int))
+					twice := new(big.Int).Lsh(r, 1)
+					switch twice.Cmp(unit) {
+					case 1:
+						q.Add(q, big.NewInt(1))
+					case 0:
+						if q.Bit(0) == 1 && prec > 0 {
+							q.Add(q, big.NewInt(1))
+						}
+					}
+					wantExp = e0 + int64(drop)
+					wantDigs = q.String()
+					if q.Sign() == 0 {
+						wantDigs = ""
+					} else {
+						for strings.HasSuffix(wantDigs, "0") {
+							wantDigs = strings.TrimSuffix(wantDigs, "0")
+							wantExp++
+						}
+					}
+				}
+				got := "?"
+				var gotExp int64 = -999
+				if len(flows) >= 1 && !in.overflow {
+					f := flows[len(flows)-1]
+					ds, ok1 := f.st.flds["ref:d.dig"].(avStr)
+					nd, ok2 := f.st.flds["ref:d.ndig"].(avInt)
+					ex, ok3 := f.st.flds["ref:d.exp"].(avInt)
+					if ok1 && ok2 && ok3 && len(flows) == 1 && nd.v >= 0 && int(nd.v) <= len(ds.s) {
+						got, gotExp = ds.s[:nd.v], ex.v
+					}
+				}
+				// an empty digit string denotes zero at any exponent
+				same := got == wantDigs && (gotExp == wantExp || wantDigs == "")
+				if !same {
+					bad = fmt.Sprintf("digits %q·10^%d rounded to %d digits give %q·10^%d, want %q·10^%d", digs, e0, prec, got, gotExp, wantDigs, wantExp)
+					break
+				}
+			}
+		}
+	}
+	c.check(bad == "", "roundtext", fd, fmt.Sprintf("digits.round gives the half-even rounding with stripped zeros and adjusted exponent (%d evaluations against a reference, including carries out of nines)", n), "digits.round: "+bad, props...)
+}
+
+// digits.pad by partial evaluation on concrete buffers: for every width, flag combination, sign and buffer
+// capacity (exactly full, some room, enough room) the result must be the text padded to the width - spaces
+// or zeros on the left (zeros go between a sign and the digits), spaces on the right - and the evaluation
+// must not run into a slice bound.
+func rulePad(c *Ctx) {
+	p := c.P
+	props := []string{"C07", "C20", "C06"}
+	fd := c.fn("digits.pad")
+	if fd == nil {
+		return
+	}
+	if len(paramObjs(p, fd)) != 6 {
+		c.undecided("pad.shape", fd, "pad(buf, width, printSign, padSign, padRight, padZero) expected", props...)
+		return
+	}
+	bad := ""
+	n := 0
+	mk := func(text string, capacity int) peSlice {
+		cells := make([]bitvec, capacity)
+		for i := range cells {
+			cells[i] = constVec(0)
+		}
+		for i := 0; i < len(text); i++ {
+			cells[i] = constVec(uint64(text[i]))
+		}
+		return peSlice{arr: &peCells{cells}, n: len(text)}
+	}
+	for _, text := range []string{"7", "-12.5", "+3", " 3", "1e+10"} {
+		sign := text[0] == '-' || text[0] == '+' || text[0] == ' '
+		for _, width := range []int{0, 1, len(text), len(text) + 1, len(text) + 4, 20} {
+			for _, extra := range []int{0, 2, 32} {
+				for flags := 0; flags < 4 && bad == ""; flags++ {
+					padRight, padZero := flags&1 != 0, flags&2 != 0
+					if padRight && padZero {
+						continue // callers clear padZero when '-' is given (E10.flags)
+					}
+					ev := &peEval{p: p}
+					recv := pePtr{&peStruct{f: map[string]peVal{"neg": peBool{text[0] == '-'}}}}
+					args := []peVal{mk(text, len(text)+extra), peInt{int64(width)}, peBool{text[0] == '+'}, peBool{text[0] == ' '}, peBool{padRight}, peBool{padZero}}
+					res, why := ev.run(fd, recv, args)
+					n++
+					pad := width - len(text)
+					want := text
+					if pad > 0 {
+						switch {
+						case padRight:
+							want = text + strings.Repeat(" ", pad)
+						case padZero && sign:
+							want = text[:1] + strings.Repeat("0", pad) + text[1:]
+						case padZero:
+							want = strings.Repeat("0", pad) + text
+						default:
+							want = strings.Repeat(" ", pad) + text
+						}
+					}
+					got := "?"
+					if why == "" && len(res) == 1 {
+						if sl, ok := res[0].(peSlice); ok && sl.arr != nil {
+							b := make([]byte, 0, sl.n)
+							okBytes := true
+							for i := 0; i < sl.n; i++ {
+								var u uint64
+								for j := 0; j < 8; j++ {
+									switch sl.arr.cells[sl.off+i][j].k {
+									case '1':
+										u |= 1 << uint(j)
+									case '0':
+									default:
+										okBytes = false
+									}
+								}
+								b = append(b, byte(u))
+							}
+							if okBytes {
+								got = string(b)
+							}
+						}
+					}
+					if got != want {
+						bad = fmt.Sprintf("pad(%q with capacity %d, width %d, padRight=%v, padZero=%v) gives %q (%s), want %q", text, len(text)+extra, width, padRight, padZero, got, why, want)
+					}
+				}
+			}
+		}
+	}
+	c.check(bad == "", "pad.text", fd, fmt.Sprintf("pad gives the padded text for every width, flag combination and buffer capacity tried, without touching a slice bound (%d evaluations)", n), "digits.pad: "+bad, props...)
 }
